@@ -294,6 +294,25 @@ theorem exchange_safe_executable_model (objSize : Nat → Option Nat)
   · intro hs; subst hs; exact h
   · intro e hs; subst hs; exact h
 
+/-- **C13 in one statement for the executable model (partial only by the budget).**  Application-level
+hypotheses only — acceptable items, increasing `i32` ticks, the size budget: every history runs to
+the end without a panic on either side, and every delivery obeys the verdict (accepted = the
+sender's snapshot for that tick with `ack_tick` set; otherwise `ack_tick` unchanged or cleared). -/
+theorem exchange_correct_within_budget_partial (objSize : Nat → Option Nat)
+    (size : Tw.Snap.TypeId → Nat → Nat) (ht : TableOk objSize size) (refGlue : Bool)
+    (U : List Int) (N M : Nat) (hk : 5 * (3 + 4 * (U.length + N) + (4 * U.length + M)) ≤ 65536)
+    (evs : List (EvB Tw.Snap.Snap (List Item))) (hev : ∀ e, e ∈ evs → EvOk size e)
+    (hbud : ∀ e, e ∈ evs → EvBudget U N M e) (hapi : sendsOkB none evs) :
+    ∃ y obs, SysB.run (execOps objSize refGlue) execBuild {} evs = .ok (y, obs) ∧
+      Functional y.sys.sent ∧
+      ∀ t res before after, ObsB.obs (Obs.delivered t res before after) ∈ obs →
+        (∀ s, res = .ok (some s) → (t, s) ∈ y.sys.sent ∧ after = some t) ∧
+        (res = .ok none → after = before) ∧
+        (∀ e, res = .error e → after = before ∨ after = none) := by
+  obtain ⟨⟨y, obs⟩, hrun⟩ := exchange_never_panics_within_budget_partial objSize size ht refGlue U N M hk
+    evs hev hbud
+  exact ⟨y, obs, hrun, exchange_safe_executable_model objSize size ht refGlue evs hev hapi y obs hrun⟩
+
 /-- The full-strength "nothing panics" statement: for *every* lawful snapshot layer.  It is false
 for a layer whose `create` can fail, and the real `Delta::create` can (open findings D15, D25). -/
 def C13_full : Prop :=
